@@ -9,7 +9,10 @@ import OvniModel.Rt.Buffer
     reached the disk and the bytes still sitting in the stdio buffer of the
     process (`pend`); a kill loses any suffix of `pend` (`Fs.visible`).
   * `calls` is the transcription of ovni_proc_init … ovni_proc_fini: the exact
-    sequence of libc calls of a fault-free run, each tagged with its call site.
+    sequence of libc calls of a fault-free run, each tagged with its call site
+    (the code AFTER the repairs `fix: relocate stream.obs before stream.json`
+    and `fix: check the relocation and close(streamfd)`; the code before them
+    is kept in `Rt/FsOld.lean` for the witnesses of the negated statements).
   * Crash at point k  = `run` of the first k calls.
   * Fault at point i  = the first i calls, the failed call's effect
     (`applyFailed`), then what the C code does after that failure (`cont`).
@@ -213,17 +216,17 @@ inductive Site where
   | storeFopen     -- json_serialize_to_file_pretty fopen: JSONFailure → die
   | storeFputs     --   fputs == EOF: fclose, then JSONFailure → die
   | storeFclose    --   fclose == EOF: JSONFailure → die
-  | closeStream    -- ovni_thread_free close(streamfd):    result ignored
-  | moveOpendir    -- move_thdir_to_final opendir:         err(), return
-  | moveReaddir    --   readdir == NULL ends the loop
-  | moveFopenSrc   -- move_thread_to_final fopen(src):     err(), return -1
-  | moveFopenDst   --   fopen(dst): err(), return -1 (src stays open)
-  | moveFread      --   fread: 0 ends the loop (error = EOF)
-  | moveFwrite     --   fwrite: result ignored
-  | moveFcloseOut  --   fclose(outfile): result ignored
-  | moveFcloseIn   --   fclose(infile): result ignored
-  | moveRemove     --   remove(src): err(), return -1
-  | moveClosedir   --   closedir: result ignored
+  | closeStream    -- ovni_thread_free close(streamfd):    die
+  | moveOpendir    -- (only in the code before the fix, see Rt/FsOld)
+  | moveReaddir    -- (only in the code before the fix)
+  | moveFopenSrc   -- move_thread_to_final fopen(src):     err(), return -1 → die
+  | moveFopenDst   --   fopen(dst): fclose(infile), return -1 → die
+  | moveFread      --   fread: 0 ends the loop, ferror → both fclose, return -1 → die
+  | moveFwrite     --   fwrite != bytes: break, both fclose, return -1 → die
+  | moveFcloseOut  --   fclose(outfile) != 0: fclose(infile), return -1 → die
+  | moveFcloseIn   --   fclose(infile): result ignored (nothing to lose)
+  | moveRemove     --   remove(src): err(), return -1 → die
+  | moveClosedir   -- (only in the code before the fix)
   | cleanRmdir     -- try_clean_dir: warn() at most
 deriving DecidableEq, Repr
 
@@ -234,20 +237,6 @@ structure Call where
   grp : Nat := 0
   op : FOp
 deriving DecidableEq, Repr
-
-def Site.inMove : Site → Bool
-  | .moveOpendir | .moveReaddir | .moveFopenSrc | .moveFopenDst | .moveFread | .moveFwrite
-  | .moveFcloseOut | .moveFcloseIn | .moveRemove | .moveClosedir => true
-  | _ => false
-
-/-- Call sites whose failure the code neither turns into an abort nor into a
-    retry, although the failure means data did not reach its destination.
-    (The ignored failures of fclose(infile), remove, closedir, rmdir lose
-    nothing and are *not* listed.) -/
-def Site.unchecked : Site → Bool
-  | .closeStream | .moveOpendir | .moveReaddir | .moveFopenSrc | .moveFopenDst | .moveFread
-  | .moveFwrite | .moveFcloseOut => true
-  | _ => false
 
 /-! ### Programs -/
 
@@ -284,7 +273,7 @@ deriving DecidableEq, Repr
 structure Prog where
   tmpMode : Bool           -- OVNI_TMPDIR set
   nAnc : Nat               -- number of existing directories above the trace roots
-  order : List DirEnt      -- what readdir returns for each thread directory
+  order : List DirEnt      -- what readdir returns for a thread directory (only the code before the fix reads it)
   threads : List ThreadProg  -- run one after the other
   fini : Bool := true
 deriving DecidableEq, Repr
@@ -352,22 +341,6 @@ def moveFileCalls (g tid : Nat) (n : FName) (c : List Nat) : List Call :=
   ++ [⟨.moveFread, g, .fread src 0⟩, ⟨.moveFcloseOut, g, .fcloseW dst⟩, ⟨.moveFcloseIn, g, .fcloseR src⟩,
       ⟨.moveRemove, g, .remove src⟩]
 
-/-- The loop body of `move_thdir_to_final` for one directory entry
-    (entries not starting with "stream." are skipped). -/
-def entryCalls (tid : Nat) (content : FName → List Nat) (g : Nat) : DirEnt → List Call
-  | .f n => ⟨.moveReaddir, g, .readdir (some (.f n))⟩ :: moveFileCalls g tid n (content n)
-  | e => [⟨.moveReaddir, g, .readdir (some e)⟩]
-
-def entriesCalls (tid : Nat) (content : FName → List Nat) : Nat → List DirEnt → List Call
-  | _, [] => []
-  | g, e :: es => entryCalls tid content g e ++ entriesCalls tid content (g + 1) es
-
-/-- `move_thdir_to_final(thdir, thdir_final)`. -/
-def moveDirCalls (order : List DirEnt) (tid : Nat) (content : FName → List Nat) : List Call :=
-  [⟨.moveOpendir, 0, .opendir (.thread .tmp tid)⟩]
-  ++ entriesCalls tid content 1 order
-  ++ [⟨.moveReaddir, 0, .readdir none⟩, ⟨.moveClosedir, 0, .closedir⟩]
-
 /-- All the bytes the steps hand to `write`. -/
 def stepsBytes : List PStep → List Nat
   | [] => []
@@ -385,11 +358,13 @@ def lastWriteLen : List Nat → List PStep → Nat
 
 def ThreadProg.lastLen (t : ThreadProg) : Nat := lastWriteLen t.hdr t.steps
 
-/-- What follows `close(streamfd)` in `ovni_thread_free` when the working
-    stream.obs has content `obs`: the relocation and `try_clean_dir(thdir)`. -/
-def relocCalls (ser : Meta → List Nat) (p : Prog) (t : ThreadProg) (obs : List Nat) : List Call :=
+/-- What follows `close(streamfd)` in `ovni_thread_free`:
+    `move_thdir_to_final` — stream.obs first, then stream.json, in that fixed
+    order — and `try_clean_dir(thdir)`. -/
+def relocCalls (ser : Meta → List Nat) (p : Prog) (t : ThreadProg) : List Call :=
   if p.tmpMode then
-    moveDirCalls p.order t.tid (fun n => match n with | .obs => obs | .json => ser ⟨true, t.metaF⟩)
+    moveFileCalls 1 t.tid .obs t.obsBytes
+    ++ moveFileCalls 2 t.tid .json (ser ⟨true, t.metaF⟩)
     ++ [⟨.cleanRmdir, 0, .rmdir (.thread .tmp t.tid)⟩]
   else []
 
@@ -397,7 +372,7 @@ def relocCalls (ser : Meta → List Nat) (p : Prog) (t : ThreadProg) (obs : List
 def threadFreeCalls (ser : Meta → List Nat) (p : Prog) (t : ThreadProg) : List Call :=
   storeCalls p.wr t.tid (ser ⟨true, t.metaF⟩)
   ++ [⟨.closeStream, 0, .close p.wr t.tid t.lastLen⟩]
-  ++ relocCalls ser p t t.obsBytes
+  ++ relocCalls ser p t
 
 def threadCalls (ser : Meta → List Nat) (p : Prog) (t : ThreadProg) : List Call :=
   threadInitCalls ser p t
@@ -445,14 +420,14 @@ inductive Cont where
   | die (extra : List Call)     -- calls still made before abort()
   | go (rest : List Call)       -- execution continues with these calls
 
-/-- The thread whose call this is (only meaningful for the sites that use it). -/
-def Prog.threadOf (p : Prog) (tid : Nat) : Option ThreadProg := p.threads.find? (·.tid = tid)
-
 /-- What the code does after call `c` failed; `rest` are the calls that
-    would have followed. -/
-def cont (ser : Meta → List Nat) (p : Prog) (c : Call) (f : Fault) (rest : List Call) : Cont :=
+    would have followed.  Every failure that means data did not reach its
+    destination ends in die(); inside `move_thread_to_final` the files are
+    closed first and the source is never removed. -/
+def cont (c : Call) (f : Fault) (rest : List Call) : Cont :=
   match c.site with
-  | .mkdirPath | .statPath | .openStream | .storeFopen | .storeFclose => .die []
+  | .mkdirPath | .statPath | .openStream | .storeFopen | .storeFclose | .closeStream
+  | .moveFopenSrc | .moveRemove => .die []
   | .writeStream =>
     match c.op, f with
     | .write r t d, .short => .go (⟨.writeStream, 0, .write r t (d.drop (d.length / 2))⟩ :: rest)
@@ -461,21 +436,26 @@ def cont (ser : Meta → List Nat) (p : Prog) (c : Call) (f : Fault) (rest : Lis
     match c.op with
     | .fputs p _ => .die [⟨.storeFclose, 0, .fcloseW p⟩]
     | _ => .die []
-  | .closeStream =>
-    -- the relocation now sees a stream.obs without its last write
+  | .moveFopenDst =>
     match c.op with
-    | .close _ t last =>
-      match p.threadOf t with
-      | some tp =>
-        let full := relocCalls ser p tp tp.obsBytes
-        .go (relocCalls ser p tp (dropLast tp.obsBytes last) ++ rest.drop full.length)
-      | none => .go rest
-    | _ => .go rest
-  | .moveOpendir => .go (rest.dropWhile (·.site.inMove))    -- return before the loop and closedir
-  | .moveReaddir => .go (rest.dropWhile (fun x => x.site.inMove && x.site != .moveClosedir))
-  | .moveFopenSrc | .moveFopenDst => .go (rest.dropWhile (fun x => x.grp == c.grp && x.site.inMove && x.site != .moveReaddir))
-  | .moveFread => .go (rest.dropWhile (fun x => x.site == .moveFread || x.site == .moveFwrite))
-  | .moveFwrite | .moveFcloseOut | .moveFcloseIn | .moveRemove | .moveClosedir | .cleanRmdir => .go rest
+    | .fopenW (.file _ t n) => .die [⟨.moveFcloseIn, c.grp, .fcloseR (.file .tmp t n)⟩]
+    | _ => .die []
+  | .moveFread =>
+    match c.op with
+    | .fread (.file _ t n) _ =>
+      .die [⟨.moveFcloseOut, c.grp, .fcloseW (.file .fin t n)⟩, ⟨.moveFcloseIn, c.grp, .fcloseR (.file .tmp t n)⟩]
+    | _ => .die []
+  | .moveFwrite =>
+    match c.op with
+    | .fwrite (.file _ t n) _ =>
+      .die [⟨.moveFcloseOut, c.grp, .fcloseW (.file .fin t n)⟩, ⟨.moveFcloseIn, c.grp, .fcloseR (.file .tmp t n)⟩]
+    | _ => .die []
+  | .moveFcloseOut =>
+    match c.op with
+    | .fcloseW (.file _ t n) => .die [⟨.moveFcloseIn, c.grp, .fcloseR (.file .tmp t n)⟩]
+    | _ => .die []
+  | .moveFcloseIn | .cleanRmdir => .go rest
+  | .moveOpendir | .moveReaddir | .moveClosedir => .go rest   -- not produced by `calls`
 
 /-- The `i`-th call of the run fails with `f` (nothing fails if there is no
     such call or the fault does not apply to it).  `kept`: see `applyFailed`. -/
@@ -486,7 +466,7 @@ def faultAt (ser : Meta → List Nat) (p : Prog) (i : Nat) (f : Fault) (kept : N
   | some c =>
     if fires c.op f then
       let s := applyFailed (run p.init (ops (cs.take i))) kept c.op f
-      match cont ser p c f (cs.drop (i + 1)) with
+      match cont c f (cs.drop (i + 1)) with
       | .die extra => .die (run s (ops extra))
       | .go rest => .returned (run s (ops rest))
     else .returned (run p.init (ops cs))
@@ -499,7 +479,7 @@ def faultTrace (ser : Meta → List Nat) (p : Prog) (i : Nat) (f : Fault) : List
   | none => cs
   | some c =>
     if fires c.op f then
-      match cont ser p c f (cs.drop (i + 1)) with
+      match cont c f (cs.drop (i + 1)) with
       | .die extra => cs.take (i + 1) ++ extra
       | .go rest => cs.take (i + 1) ++ rest
     else cs
@@ -556,10 +536,6 @@ def visibleStreams (fs : Fs) (r : Root) : List Nat :=
     finds loads, replays to the end and leaves its thread dead. -/
 def accepts (E : EmuCfg) (C : Codec) (fs : Fs) (cut : Path → Nat) (r : Root) : Bool :=
   (visibleStreams fs r).all fun t => streamAccepted E C fs cut r t
-
-/-- The stream files among the entries readdir returns, in that order. -/
-def streamEntries (order : List DirEnt) : List FName :=
-  order.filterMap fun e => match e with | .f n => some n | _ => none
 
 /-! ### Tie to the buffer model: the bytes of each `write` -/
 
